@@ -79,7 +79,7 @@ func (p *Prog) findMethod(n *types.Named, name string) *Fn {
 func runC17(c *Ctx) {
 	c.Rule("double-close-idempotent", "a value closed by both a closing tree and its creator requires idempotent release of pooled fields", 2)
 	c.Rule("matcher-single-owner", "each ShardInfo.Matcher result has at most one Close owner per path", 4)
-	c.Rule("pool-budget", "amount added to the usage counter is the amount tested against the limit; Put subtracts cap", 3)
+	c.Rule("pool-budget", "amount added to the usage counter is the amount tested against the limit; Put subtracts cap", 2)
 	c.Rule("pool-lockset", "usedTotal only under mtx", 5)
 	c.Rule("request-close-once", "request-scoped Close at most once per path", 1)
 	p := c.Load("pkg/store", "pkg/store/storepb", "pkg/losertree", "pkg/pool", "pkg/receive/writecapnp", "pkg/receive")
@@ -627,24 +627,45 @@ func checkPoolBudget(c *Ctx, p *Prog) {
 		sel, ok := unparen(e).(*ast.SelectorExpr)
 		return ok && sel.Sel.Name == name && info.Selections[sel] != nil
 	}
-	info := get.Info()
-	// additions to usedTotal
+	// additions to usedTotal, in any method of the pool (a helper that adds without testing the
+	// limit in the same critical section makes check and update non-atomic)
 	type add struct {
+		fn   *Fn
 		stmt *ast.AssignStmt
 		amt  ast.Expr
 	}
 	var adds []add
-	ast.Inspect(get.Body(), func(n ast.Node) bool {
-		if as, ok := n.(*ast.AssignStmt); ok && as.Tok == token.ADD_ASSIGN && len(as.Lhs) == 1 && isField(info, as.Lhs[0], "usedTotal") {
-			adds = append(adds, add{as, as.Rhs[0]})
+	for _, fn := range p.AllFuncs(true) {
+		if fn.Pkg.PkgPath != thanosMod+"/"+rel || fn.Decl.Recv == nil || !strings.Contains(fn.Name, "BucketedPool") {
+			continue
 		}
-		return true
-	})
-	if len(adds) == 0 {
-		c.Incomplete("pool-budget", rel+".(*BucketedPool).Get", p.Pos(get.Decl.Pos()), "no `usedTotal += x` found")
+		fi := fn.Info()
+		ast.Inspect(fn.Body(), func(n ast.Node) bool {
+			as, ok := n.(*ast.AssignStmt)
+			if !ok || len(as.Lhs) != 1 || !isField(fi, as.Lhs[0], "usedTotal") {
+				return true
+			}
+			switch as.Tok {
+			case token.ADD_ASSIGN:
+				adds = append(adds, add{fn, as, as.Rhs[0]})
+			case token.ASSIGN:
+				if b, ok := unparen(as.Rhs[0]).(*ast.BinaryExpr); ok && b.Op == token.ADD && isField(fi, b.X, "usedTotal") {
+					adds = append(adds, add{fn, as, b.Y})
+				}
+			}
+			return true
+		})
 	}
-	for i, a := range adds {
-		construct := fmt.Sprintf("%s.(*BucketedPool).Get#add[%d]", rel, i)
+	if len(adds) == 0 {
+		c.Incomplete("pool-budget", rel+".(*BucketedPool).Get", p.Pos(get.Decl.Pos()), "no increase of usedTotal found in any BucketedPool method")
+	}
+	perFn := map[string]int{}
+	for _, a := range adds {
+		get := a.fn
+		info := get.Info()
+		i := perFn[get.Name]
+		perFn[get.Name]++
+		construct := fmt.Sprintf("%s.%s#add[%d]", rel, get.Name, i)
 		// nearest preceding guard in the same or an enclosing block: if maxTotal > 0 && usedTotal+E > maxTotal { return ..., err }
 		var guardAmt ast.Expr
 		var guardPos token.Pos
@@ -703,7 +724,23 @@ func checkPoolBudget(c *Ctx, p *Prog) {
 			node = par
 		}
 		if guardAmt == nil {
-			c.Bad("pool-budget", construct, p.Pos(a.stmt.Pos()), "add-without-limit-test", "usedTotal is increased without a preceding test of usedTotal+amount against maxTotal on this path")
+			c.Bad("pool-budget", construct, p.Pos(a.stmt.Pos()), "add-without-limit-test", "usedTotal is increased without a test of usedTotal+amount against maxTotal in the same function: limit check and accounting are not one atomic step")
+			continue
+		}
+		// same critical section: no unlock between the limit test and the add
+		released := false
+		ast.Inspect(get.Body(), func(n ast.Node) bool {
+			if call, ok := n.(*ast.CallExpr); ok && call.Pos() > guardPos && call.Pos() < a.stmt.Pos() {
+				if _, op := lockOp(info, call); op == "Unlock" || op == "RUnlock" {
+					if _, isDefer := p.ParentOf(get.Pkg, call).(*ast.DeferStmt); !isDefer {
+						released = true
+					}
+				}
+			}
+			return true
+		})
+		if released {
+			c.Bad("pool-budget", construct, p.Pos(a.stmt.Pos()), "lock-released-between-test-and-add", "the mutex is released between the limit test and the accounting: concurrent Gets can all pass the test")
 			continue
 		}
 		same := sameObjExpr(info, stripConv(info, guardAmt), stripConv(info, a.amt)) ||
